@@ -182,5 +182,8 @@ def run(check, ctx):
         run_row(check, repo, r)
     from . import c05_extra
     c05_extra.run(check, ctx)
+    # the native validator of NIST-curve public points (every pair with a zero coordinate, off-curve pairs)
+    from . import c_ec
+    c_ec.newpoint_tables(check, ctx)
     check.undecided.append("primality-test soundness; correctness of the arithmetic the "
                            "predicates use; FIPS margins beyond the listed inequalities")
